@@ -73,30 +73,34 @@ Definition tokens (v : cell) : list str :=
 Definition mv_name (f t : str) : str := S_MULTIEX ++ f ++ DASH :: t.
 Definition mv_column (vec : list cell) (t : str) : list cell :=
   map (fun v => if memb t (tokens v) then ONE else EMPTY) vec.
-(* the distinct tokens of a column come out of a Python set: [perm] is the order in which they are emitted
-   (set iteration order originally, sorted() since repo commit b8c228d); the property does not fix it *)
-Definition mv_tokens (perm : list str -> list str) (missing : list str) (vec : list cell) : list str :=
-  filter (fun t => negb (memb t missing)) (perm (uniq (flat_map tokens vec))).
-Definition mv_feature (perm : str -> list str -> list str) (df : frame) (missing : list str) (f : str) : list column :=
-  map (fun t => (mv_name f t, mv_column (getcol df f) t)) (mv_tokens (perm f) missing (getcol df f)).
-Definition multivalue (perm : str -> list str -> list str) (df : frame) (missing : list str) (feats : list str) : option frame :=
-  if forallb (has_col df) feats
-  then Some (df ++ dict_of (flat_map (mv_feature perm df missing) feats))
+(* sorted(set_of_tokens): Python orders str by code point (the code emits the tokens in sorted order since repo commit
+   b8c228d; the property itself does not fix the order, the model follows the code) *)
+Fixpoint str_ltb (a b : str) : bool :=
+  match a, b with
+  | [], [] => false
+  | [], _ :: _ => true
+  | _ :: _, [] => false
+  | x :: a', y :: b' => if N.ltb x y then true else if N.eqb x y then str_ltb a' b' else false
+  end.
+Fixpoint sinsert (x : str) (l : list str) : list str :=
+  match l with
+  | [] => [x]
+  | y :: r => if str_ltb y x then y :: sinsert x r else x :: l
+  end.
+Definition sort_str (l : list str) : list str := fold_right sinsert [] l.
+
+Definition mv_tokens (missing : list str) (vec : list cell) : list str :=
+  filter (fun t => negb (memb t missing)) (sort_str (uniq (flat_map tokens vec))).
+Definition mv_feature (df : frame) (missing : list str) (f : str) : list column :=
+  map (fun t => (mv_name f t, mv_column (getcol df f) t)) (mv_tokens missing (getcol df f)).
+(* None: a listed feature is not a column (KeyError), or the frame has no rows (set.union of no sets raises TypeError) *)
+Definition multivalue (df : frame) (missing : list str) (feats : list str) : option frame :=
+  if forallb (has_col df) feats && negb (Nat.eqb (nrows df) 0)
+  then Some (df ++ dict_of (flat_map (mv_feature df missing) feats))
   else None.
 (* as configured: --explode_multivalue_features "f1;f2", --missing_value_symbols "a,b" *)
-Definition multivalue_args (perm : str -> list str -> list str) (df : frame) (explode missing_symbols : str) : option frame :=
-  multivalue perm df (split_on COMMA missing_symbols) (split_on SEMI explode).
-(* what is assumed of an iteration order: it lists the same elements *)
-Definition perm_ok (perm : str -> list str -> list str) : Prop := forall f l x, In x (perm f l) <-> In x l.
-Definition id_perm : str -> list str -> list str := fun _ l => l.
-(* the order observed on the implementation, used to run the model: observed elements first, in that order *)
-Definition order_by (obs l : list str) : list str :=
-  filter (fun x => memb x l) obs ++ filter (fun x => negb (memb x obs)) l.
-Fixpoint order_for (table : list (str * list str)) (f : str) (l : list str) : list str :=
-  match table with
-  | [] => l
-  | (k, obs) :: r => if streqb f k then order_by obs l else order_for r f l
-  end.
+Definition multivalue_args (df : frame) (explode missing_symbols : str) : option frame :=
+  multivalue df (split_on COMMA missing_symbols) (split_on SEMI explode).
 
 (* ================= sub-features ================= *)
 Inductive subop := OneSided (a b : str) | TwoSided (a b : str).
@@ -199,14 +203,13 @@ Section Batch.
   Variable T : frame -> list (str * (nat -> cell)).
   Variable rnd : str -> nat -> cell.
   Variable sample : bool -> list (list str) -> list (list str).   (* prior_combinations_sample (per pass: is3mr), any behaviour *)
-  Variable perm : str -> list str -> list str.              (* set iteration order of the multi-value tokens *)
 
   Definition step_combined (cfg : config) (is3mr : bool) : step :=
     fun df => Some (combined h (if is3mr then SEP_AND_REL else SEP_AND) df
                              (sample is3mr (candidates df (c_label cfg) (c_io cfg) is3mr))).
   Definition batch_steps (cfg : config) : list step :=
     (if c_transformers cfg then [transform T] else [])
-    ++ (match c_explode cfg with Some feats => [fun df => multivalue perm df (c_missing cfg) feats] | None => [] end)
+    ++ (match c_explode cfg with Some feats => [fun df => multivalue df (c_missing cfg) feats] | None => [] end)
     ++ (match c_submap cfg with Some ops => [fun df => subfeatures df ops] | None => [] end)
     ++ (if Nat.ltb 1 (c_io cfg) then [step_combined cfg false] else [])
     ++ (if c_3mr cfg then [step_combined cfg true] else [])
